@@ -435,8 +435,15 @@ func (c *Cache) VerifDump() VerifState {
 
 // VerifResetDefaultCache forgets the package-level default cache (fresh start per execution).
 func VerifResetDefaultCache() {
-	defaultCache = nil
-	getDefaultOnce = sync.Once{}
+	VerifResetGlobals()
+}
+
+// VerifResetGlobals puts every package-level synchronisation object and the package-level
+// cache/validator back to its zero value: executions of the explorer must not inherit a lock
+// that an aborted (e.g. deadlocked) execution left held. The body is generated from the
+// package's top-level declarations.
+func VerifResetGlobals() {
+//RESETS//
 }
 `
 
@@ -482,6 +489,41 @@ func main() {
 	fmt.Printf("overlaygen: %d range-over-map statements made deterministic\n", len(mapRanges))
 	// export file: needs the same local name for vsync as default-cache.go uses ("sync")
 	exp := strings.Replace(exportFile, `import "sort"`, "import (\n\t\"sort\"\n\tsync \""+shimBase+"vsync\"\n)", 1)
+	// package-level variables to reset: sync objects by declared type, pointers/interfaces we know by name
+	var resets []string
+	for _, f := range linuxFiles {
+		syncLocal := ""
+		for _, imp := range f.Imports {
+			if p, _ := strconv.Unquote(imp.Path.Value); p == shimBase+"vsync" && imp.Name != nil {
+				syncLocal = imp.Name.Name
+			}
+		}
+		for _, d := range f.Decls {
+			gd, ok := d.(*ast.GenDecl)
+			if !ok || gd.Tok != token.VAR {
+				continue
+			}
+			for _, sp := range gd.Specs {
+				vs := sp.(*ast.ValueSpec)
+				for _, n := range vs.Names {
+					if se, ok := vs.Type.(*ast.SelectorExpr); ok && syncLocal != "" {
+						if x, ok := se.X.(*ast.Ident); ok && x.Name == syncLocal {
+							resets = append(resets, fmt.Sprintf("\t%s = sync.%s{}", n.Name, se.Sel.Name))
+						}
+					}
+					if st, ok := vs.Type.(*ast.StarExpr); ok {
+						if id, ok := st.X.(*ast.Ident); ok && id.Name == "Cache" {
+							resets = append(resets, fmt.Sprintf("\t%s = nil", n.Name))
+						}
+					}
+					if id, ok := vs.Type.(*ast.Ident); ok && id.Name == "validator" {
+						resets = append(resets, fmt.Sprintf("\t%s = nil", n.Name))
+					}
+				}
+			}
+		}
+	}
+	exp = strings.Replace(exp, "//RESETS//", strings.Join(resets, "\n"), 1)
 	expPath := filepath.Join(out, "cdi", "export_verif.go")
 	if err := os.WriteFile(expPath, []byte(exp), 0o644); err != nil {
 		die("%v", err)
